@@ -4443,19 +4443,26 @@ impl Command {
             sc_names = format!("{{{sc_names}}}");
         }
 
-        let usage_name = self
-            .bin_name
-            .as_ref()
-            .map(|bin_name| format!("{bin_name}{mid_string}{sc_names}"))
-            .unwrap_or(sc_names);
+        // Same fallback as `_build_bin_names_internal` so that a lazily built subcommand is named
+        // like an eagerly built one
+        let self_bin_name = if is_multicall_set {
+            self.bin_name.as_deref().unwrap_or("")
+        } else {
+            self.bin_name.as_deref().unwrap_or(&self.name)
+        };
+        let usage_name = if self_bin_name.is_empty() {
+            sc_names
+        } else {
+            format!("{self_bin_name}{mid_string}{sc_names}")
+        };
         sc.usage_name = Some(usage_name);
 
         // bin_name should be parent's bin_name + [<reqs>] + the sc's name separated by
         // a space
         let bin_name = format!(
             "{}{}{}",
-            self.bin_name.as_deref().unwrap_or_default(),
-            if self.bin_name.is_some() { " " } else { "" },
+            self_bin_name,
+            if !self_bin_name.is_empty() { " " } else { "" },
             &*sc.name
         );
         debug!(
@@ -4540,7 +4547,11 @@ impl Command {
                         sc_names = format!("{{{sc_names}}}");
                     }
 
-                    let usage_name = format!("{self_bin_name}{mid_string}{sc_names}");
+                    let usage_name = if self_bin_name.is_empty() {
+                        sc_names
+                    } else {
+                        format!("{self_bin_name}{mid_string}{sc_names}")
+                    };
                     debug!(
                         "Command::_build_bin_names:iter: Setting usage_name of {} to {:?}",
                         sc.name, usage_name
